@@ -323,7 +323,13 @@ def resolve_path_with_pos(env, rel):
 
 # $path is position-qualified so that the same symbol at two positions writes to two places, and the stepwise run
 # of position i writes where the lazy run's i-th step does.
-core.Env.path = lambda self, rel: os.path.join(self.scratch, 'p%d' % getattr(self, 'pos', 0), rel)
+def _env_path(self, rel):
+    p = os.path.join(self.scratch, 'p%d' % getattr(self, 'pos', 0), rel)
+    os.makedirs(os.path.dirname(p), exist_ok=True)
+    return p
+
+
+core.Env.path = _env_path
 
 
 # ------------------------------------------------------------------------------------------------
